@@ -50,9 +50,53 @@ def _const_str(n: ast.AST) -> Optional[str]:
     return n.value if isinstance(n, ast.Constant) and isinstance(n.value, str) else None
 
 
+def _state_aliases(mod: Module) -> Dict[int, ast.AST]:
+    """id(Name node) -> the expression the local stands for, for locals bound exactly once in their function to the instance
+    dict (`X.__dict__`) or to one of the state attributes (`X._group_current`, `X.__dict__["_group_current"]`,
+    `X.__dict__.get("_group_current")`): a store through such a local is a store to the state itself"""
+    out: Dict[int, ast.AST] = {}
+    for fn in ast.walk(mod.tree):
+        if not isinstance(fn, (ast.FunctionDef, ast.AsyncFunctionDef)):
+            continue
+        binds: Dict[str, List[ast.AST]] = {}
+        for n in ast.walk(fn):
+            if isinstance(n, ast.Name) and isinstance(n.ctx, (ast.Store, ast.Del)):
+                binds.setdefault(n.id, []).append(n)
+            elif isinstance(n, ast.arg):
+                binds.setdefault(n.arg, []).append(n)
+        alias: Dict[str, ast.AST] = {}
+        for n in ast.walk(fn):
+            if isinstance(n, ast.Assign) and len(n.targets) == 1 and isinstance(n.targets[0], ast.Name) and len(binds.get(n.targets[0].id, [])) == 1:
+                v = n.value
+                if isinstance(v, ast.Attribute) and v.attr == "__dict__":
+                    alias[n.targets[0].id] = v
+                elif isinstance(v, ast.Attribute) and v.attr in STATE_ATTRS:
+                    alias[n.targets[0].id] = v
+                elif isinstance(v, ast.Subscript) and _const_str(v.slice) in STATE_ATTRS and (
+                        (isinstance(v.value, ast.Attribute) and v.value.attr == "__dict__") or (isinstance(v.value, ast.Name) and isinstance(alias.get(v.value.id), ast.Attribute)
+                                                                                                   and alias[v.value.id].attr == "__dict__")):
+                    base = v.value if isinstance(v.value, ast.Attribute) else alias[v.value.id]
+                    alias[n.targets[0].id] = ast.Attribute(base.value, _const_str(v.slice), ast.Load())
+                elif isinstance(v, ast.Call) and isinstance(v.func, ast.Attribute) and v.func.attr == "get" and v.args and _const_str(v.args[0]) in STATE_ATTRS:
+                    recv = v.func.value
+                    if isinstance(recv, ast.Name) and isinstance(alias.get(recv.id), ast.Attribute) and alias[recv.id].attr == "__dict__":
+                        recv = alias[recv.id]
+                    if isinstance(recv, ast.Attribute) and recv.attr == "__dict__":
+                        alias[n.targets[0].id] = ast.Attribute(recv.value, _const_str(v.args[0]), ast.Load())
+        if alias:
+            for n in ast.walk(fn):
+                if isinstance(n, ast.Name) and isinstance(n.ctx, ast.Load) and n.id in alias:
+                    out[id(n)] = alias[n.id]
+    return out
+
+
 def state_writes(mod: Module) -> List[Write]:
     enc = _enclosing(mod)
     out: List[Write] = []
+    aliases = _state_aliases(mod)
+
+    def res(node: ast.AST) -> ast.AST:
+        return aliases.get(id(node), node)
 
     def add(node, attr, form, target, tracked=False):
         out.append(Write(mod.rel, enc.get(id(node), "<module>"), attr, form, getattr(node, "lineno", 0), target, tracked))
@@ -72,7 +116,7 @@ def state_writes(mod: Module) -> List[Write]:
                 if isinstance(tt, ast.Attribute) and tt.attr in STATE_ATTRS:
                     add(n, tt.attr, form, ast.unparse(tt))
                 elif isinstance(tt, ast.Subscript):
-                    base = tt.value
+                    base = res(tt.value)
                     if isinstance(base, ast.Attribute) and base.attr == "__dict__":
                         key = _const_str(tt.slice)
                         if key in STATE_ATTRS:
@@ -99,9 +143,9 @@ def state_writes(mod: Module) -> List[Write]:
                 elif ftxt != "super().__setattr__" and len(n.args) == 3:
                     key = _const_str(n.args[1])
                     add(n, key if key in STATE_ATTRS else "<field>", ftxt, ast.unparse(n.args[0]) + "." + (key or ast.unparse(n.args[1])))
-            elif isinstance(f, ast.Attribute) and f.attr in MUTATORS and isinstance(f.value, ast.Attribute) and f.value.attr in STATE_ATTRS:
-                add(n, f.value.attr, "item", ast.unparse(f))
-            elif isinstance(f, ast.Attribute) and f.attr in ("update", "setdefault", "__setitem__") and isinstance(f.value, ast.Attribute) and f.value.attr == "__dict__":
+            elif isinstance(f, ast.Attribute) and f.attr in MUTATORS and isinstance(res(f.value), ast.Attribute) and res(f.value).attr in STATE_ATTRS:
+                add(n, res(f.value).attr, "item", ast.unparse(f))
+            elif isinstance(f, ast.Attribute) and f.attr in ("update", "setdefault", "__setitem__") and isinstance(res(f.value), ast.Attribute) and res(f.value).attr == "__dict__":
                 # X.__dict__.update(k=v, ...) / .update({"k": v}) / .setdefault("k", v) / .__setitem__("k", v): raw stores like X.__dict__["k"] = v
                 keys: List[Optional[str]] = [k.arg for k in n.keywords]
                 if f.attr == "update":
